@@ -239,6 +239,7 @@ pub fn check_retention(_prog: &Prog, log: &[Stamped], ctx: &Ctx) -> (Vec<String>
     let mut slots: HashMap<(usize, u32, u32), Slot> = HashMap::new();
     // per (type, value): current id
     let mut cur_id: HashMap<(usize, u16), (u32, u32)> = HashMap::new();
+    let mut cur_id_rev: HashMap<(usize, u16), u64> = HashMap::new();
     // reused slots: (type, idx) -> highest generation that has been replaced
     let mut replaced: HashMap<(usize, u32), u32> = HashMap::new();
     // last interned event per thread (created?)
@@ -357,6 +358,13 @@ pub fn check_retention(_prog: &Prog, log: &[Stamped], ctx: &Ctx) -> (Vec<String>
                 }
                 // identity continuity
                 match cur_id.get(&(t, *v)).copied() {
+                    Some(old) if old != (*idx, *g) && cur_id_rev.get(&(t, *v)) == Some(&rev) => {
+                        viol.push(format!(
+                            "interned type {:?}: value {v} has the two handles {old:?} and ({idx},{g}) in one revision ({rev})",
+                            Sym::ALL[t]
+                        ));
+                        break;
+                    }
                     Some(old) if old != (*idx, *g) => {
                         let was_replaced = replaced.get(&(t, old.0)).is_some_and(|rg| *rg >= old.1);
                         if !was_replaced {
@@ -372,6 +380,7 @@ pub fn check_retention(_prog: &Prog, log: &[Stamped], ctx: &Ctx) -> (Vec<String>
                     None => {}
                 }
                 cur_id.insert((t, *v), (*idx, *g));
+                cur_id_rev.insert((t, *v), rev);
             }
             _ => {}
         }
